@@ -16,6 +16,7 @@ Not decided: value equality, tie order among equidistant channels.
 import ast
 
 from vlib import q, proto
+from vlib.pat import Pat, returned
 from vlib.proto import C, T, is_c, is_t, show, subterms
 from vlib.sym import Lin, equal, NF
 from vlib.front import unparse, dotted, const_value, AnchorMissing
@@ -76,20 +77,35 @@ def s1_rawind(ctx, rule='C14.S1'):
         if lp2 is None:
             ctx.undecided(rule, co, 'no probe loop in make_channel_objects')
         else:
-            ctx.check(unparse(lp2.iter).replace(' ', '') in ('np.unique(self.model.channel_probes)', 'sorted(set(self.model.channel_probes))', 'self.model.probes'), rule, co, lp2.iter,
-                      'probes are visited in increasing label order (the order in which the merger accumulated the offsets)', 'probes are not visited in increasing label order')
+            it_good = Pat().any(['np.unique(self.model.channel_probes)', 'sorted(set(self.model.channel_probes))', 'self.model.probes', 'sorted(np.unique(self.model.channel_probes))'], lp2.iter)
+            it_bad = not it_good and Pat().any(['np.unique(self.model.channel_probes)[::-1]', 'reversed(np.unique(self.model.channel_probes))', 'set(self.model.channel_probes)'], lp2.iter)
+            if it_good:
+                ctx.holds(rule, co, 'probes are visited in increasing label order (the order in which the merger accumulated the offsets)', lp2.iter)
+            elif it_bad:
+                ctx.violated(rule, co, lp2.iter, 'probes are not visited in increasing label order (`%s`)' % unparse(lp2.iter))
+            else:
+                ctx.undecided(rule, co, 'probe iteration `%s` not recognised' % unparse(lp2.iter), lp2.iter)
+            PC = Pat(co)
+            pv = unparse(lp2.target)
+            mask_s = PC.stmt('V_mask = self.model.channel_probes == %s' % pv, within=lp2)
+            store_s = [a for a in ast.walk(lp2) if isinstance(a, ast.Assign) and isinstance(a.targets[0], ast.Subscript) and isinstance(a.targets[0].value, ast.Name)
+                       and 'channel_mapping' in unparse(a.value)]
+            raw_name = store_s[0].targets[0].value.id if store_s else None
+            mask_name = PC.name('V_mask')
             upd = {unparse(a.target if isinstance(a, ast.AugAssign) else a.targets[0]) for a in ast.walk(lp2) if isinstance(a, (ast.Assign, ast.AugAssign))}
             accs = [unparse(a.targets[0]) for a in co.body() if isinstance(a, ast.Assign) and isinstance(a.targets[0], ast.Name) and unparse(a.targets[0]) in upd
-                    and a.lineno < lp2.lineno and unparse(a.targets[0]) != 'rawInd']
-            env2 = {co.params[0]: me, unparse(lp2.target): T('k')}
+                    and a.lineno < lp2.lineno and unparse(a.targets[0]) != raw_name]
+            env2 = {co.params[0]: me, pv: T('k')}
             for a_ in accs:
                 env2[a_] = T('acc', a_)
-            env2['rawInd'] = T('rawInd')
+            if raw_name:
+                env2[raw_name] = T('rawInd')
+            merged_forms = ['self.model.channel_mapping[%s]' % mask_name if mask_name else 'self.model.channel_mapping[self.model.channel_probes == %s]' % pv,
+                            'self.model.channel_mapping[self.model.channel_probes == %s]' % pv]
 
             class W(MI):
                 def ev_Subscript(self, e, st):
-                    t = unparse(e).replace(' ', '')
-                    if t == 'self.model.channel_mapping[ind]':
+                    if Pat().any(merged_forms, e):
                         return [(T('MERGED'), st)]
                     return super().ev_Subscript(e, st)
             I2 = W(repo, unroll=1, inline_depth=0)
@@ -179,23 +195,58 @@ def run(ctx):
         if which is None:
             continue
         nl += 1
+        PL = Pat(mt)
+        body_stmts = [x for x in ast.walk(lp) if isinstance(x, ast.stmt)]
+        dist = PL.find('V_dist = np.sum(np.abs(self.model.channel_positions - self.model.channel_positions[E_peak]), axis=1)', body_stmts, stmt=True) or \
+            PL.find('V_dist = np.abs(self.model.channel_positions - self.model.channel_positions[E_peak]).sum(axis=1)', body_stmts, stmt=True)
+        dist_any = dist or PL.find('V_dist = np.sum(ANY, axis=1)', body_stmts, stmt=True) or PL.find('V_dist = np.sum(ANY, axis=0)', body_stmts, stmt=True) or \
+            PL.find('V_dist = np.sum(ANY)', body_stmts, stmt=True)
+        if dist is not None:
+            ctx.holds('C14.U1', mt, '%s: distance = L1 distance between channel positions and the peak-channel position' % which, dist)
+        elif dist_any is not None and 'channel_positions' in unparse(dist_any.value):
+            ctx.violated('C14.U1', mt, dist_any, '%s: the distance is `%s`, not sum(|positions - position of the peak channel|) over the coordinates' % (which, unparse(dist_any.value)[:100]))
+        else:
+            ctx.undecided('C14.U1', mt, '%s: computation of the channel distance not recognised' % which)
+        dname = PL.name('V_dist')
         srt = [n for n in ast.walk(lp) if isinstance(n, ast.Subscript) and isinstance(n.value, ast.Call) and (dotted(n.value.func) or '').endswith('argsort')]
-        ok = bool(srt) and isinstance(srt[0].slice, ast.Slice) and srt[0].slice.lower is None and srt[0].slice.upper is not None and srt[0].slice.step is None and \
-            not (isinstance(srt[0].value.args[0], ast.UnaryOp))
-        ctx.check(ok, 'C14.U1', mt, srt[0] if srt else '%s loop' % which, '%s: listed channels = first n of the ascending distance order (peak channel first)' % which,
-                  '%s: listed channels are not the first n of an ascending argsort of the distance' % which)
-        pen = [a for a in ast.walk(lp) if isinstance(a, ast.AugAssign) and isinstance(a.op, ast.Add) and unparse(a.value) in ('np.inf', 'float("inf")', "float('inf')")]
-        okp = bool(pen) and isinstance(pen[0].target, ast.Subscript) and '!= current_probe' in unparse(pen[0].target.slice) and 'channel_probes' in unparse(pen[0].target.slice)
-        ctx.check(okp, 'C14.U1', mt, pen[0] if pen else '%s loop' % which, '%s: channels of other probes are pushed to infinite distance' % which,
-                  '%s: channels of other probes are not excluded from the neighbourhood' % which)
-        dist = [a for a in ast.walk(lp) if isinstance(a, ast.Assign) and unparse(a.targets[0]) == 'channel_distance']
-        okd = bool(dist) and 'np.abs(' in unparse(dist[0].value) and 'axis=1' in unparse(dist[0].value) and unparse(dist[0].value).count('self.model.channel_positions') == 2
-        ctx.check(okd, 'C14.U1', mt, dist[0] if dist else '%s loop' % which, '%s: distance = L1 distance between channel positions and the peak-channel position' % which,
-                  '%s: the distance is not sum(|positions - position of the peak channel|)' % which)
-        cols = [a for a in ast.walk(lp) if isinstance(a, ast.Assign) and isinstance(a.targets[0], ast.Subscript) and unparse(a.targets[0].value) == 'templates']
-        okc = bool(cols) and 'templates_inds[%s, :]' % t in unparse(cols[0].value)
-        ctx.check(okc, 'C14.U1', mt, cols[0] if cols else '%s loop' % which, '%s: waveform columns are those of the same row of waveformsChannels' % which,
-                  '%s: waveform columns are not taken from the matching waveformsChannels row' % which)
+        if not srt or dname is None:
+            ctx.undecided('C14.U1', mt, '%s: ordering of the channels by distance not recognised' % which)
+        else:
+            a0 = srt[0].value.args[0] if srt[0].value.args else None
+            asc = isinstance(srt[0].slice, ast.Slice) and srt[0].slice.lower is None and srt[0].slice.upper is not None and srt[0].slice.step is None and \
+                isinstance(a0, ast.Name) and a0.id == dname
+            desc = isinstance(a0, ast.UnaryOp) or (isinstance(srt[0].slice, ast.Slice) and (srt[0].slice.step is not None or srt[0].slice.lower is not None))
+            if asc:
+                ctx.holds('C14.U1', mt, '%s: listed channels = first n of the ascending distance order (peak channel first)' % which, srt[0])
+            elif desc:
+                ctx.violated('C14.U1', mt, srt[0], '%s: listed channels are `%s`, not the first n of an ascending argsort of the distance' % (which, unparse(srt[0])))
+            else:
+                ctx.undecided('C14.U1', mt, '%s: channel ordering `%s` not recognised' % (which, unparse(srt[0])), srt[0])
+        pen = PL.find('V_dist[self.model.channel_probes != E_probe] += np.inf', body_stmts, stmt=True) or PL.find("V_dist[self.model.channel_probes != E_probe] = np.inf", body_stmts, stmt=True) or \
+            PL.find("V_dist[self.model.channel_probes != E_probe] += float('inf')", body_stmts, stmt=True)
+        pen_bad = PL.find('V_dist[self.model.channel_probes == E_probe] += np.inf', body_stmts, stmt=True) if pen is None else None
+        has_inf = any('inf' in unparse(x) for x in body_stmts if isinstance(x, (ast.Assign, ast.AugAssign)))
+        if pen is not None:
+            ctx.holds('C14.U1', mt, '%s: channels of other probes are pushed to infinite distance' % which, pen)
+        elif pen_bad is not None or (dname is not None and not has_inf):
+            ctx.violated('C14.U1', mt, pen_bad or lp, '%s: channels of other probes are not excluded from the neighbourhood' % which)
+        else:
+            ctx.undecided('C14.U1', mt, '%s: exclusion of the channels of other probes not recognised' % which)
+        # columns: row t of the waveforms is taken on the channels of row t of waveformsChannels
+        inds = PL.find('V_inds[%s, :] = ANY' % t, body_stmts, stmt=True) or PL.find('V_inds[%s] = ANY' % t, body_stmts, stmt=True)
+        cols = None
+        if inds is not None:
+            for pat_ in ('V_out[%s, ...] = E_src[%s, :][:, V_inds[%s, :]]' % (t, t, t), 'V_out[%s] = E_src[%s][:, V_inds[%s]]' % (t, t, t), 'V_out[%s, ...] = E_src[%s][:, V_inds[%s, :]]' % (t, t, t),
+                         'V_out[%s, :, :] = E_src[%s, :][:, V_inds[%s, :]]' % (t, t, t), 'V_out[%s, ...] = E_src[%s, :, V_inds[%s, :]]' % (t, t, t)):
+                cols = cols or PL.find(pat_, body_stmts, stmt=True)
+        col_any = [x for x in body_stmts if isinstance(x, ast.Assign) and isinstance(x.targets[0], ast.Subscript) and x is not inds and not isinstance(x.value, ast.Constant) and
+                   PL.name('V_inds') and PL.name('V_inds') in q.names_in(x.value)]
+        if cols is not None:
+            ctx.holds('C14.U1', mt, '%s: waveform columns are those of the same row of waveformsChannels' % which, cols)
+        elif col_any:
+            ctx.violated('C14.U1', mt, col_any[0], '%s: waveform columns are `%s`, not the columns listed in the matching waveformsChannels row' % (which, unparse(col_any[0].value)[:90]))
+        else:
+            ctx.undecided('C14.U1', mt, '%s: selection of the waveform columns not recognised' % which)
     ctx.check(nl == 2, 'C14.U1', mt, 'loops', 'templates and clusters are both exported', 'the template / cluster export loops were not both found')
     amp_calls = [c for c in mt.calls() if q.method_name(c) == 'get_amplitudes_true']
     uses = sorted(const_value(q.kwarg(c, 'use')) or 'templates' for c in amp_calls)
@@ -228,12 +279,12 @@ def run(ctx):
             ctx.violated('C14.U2', r.fi, r.node, '[make_depths, %s] %s' % (lab, r.msg))
         cd = saved3.get('clusters.depths.npy', (None, None))[1]
         sd = saved3.get('spikes.depths.npy', (None, None))[1]
-        if isinstance(cd, Arr) and isinstance(cd.elem, Q):
+        if isinstance(cd, Arr) and isinstance(cd.elem, Q) and not any(is_unk(x) for x in cd.axes):
             ctx.check(cd.axes == (Clu,) and cd.elem.d() == {'um': 1} and 'xy:1' in cd.elem.tags, 'C14.U2', md, 'clusters.depths (%s)' % lab,
                       'clusters.depths = y coordinate (um) of the peak channel of every cluster id', 'clusters.depths is %s, expected the y coordinate of the peak channel per cluster id' % cd)
         else:
             ctx.undecided('C14.U2', md, 'clusters.depths not typed (%s)' % cd)
-        if isinstance(sd, Arr) and isinstance(sd.elem, Q):
+        if isinstance(sd, Arr) and isinstance(sd.elem, Q) and not any(is_unk(x) for x in sd.axes) and not (nofeat and not (isinstance(cd, Arr) and not any(is_unk(x) for x in cd.axes))):
             ok = sd.axes == (Spike,) and sd.elem.d() == {'um': 1} and 'xy:1' in sd.elem.tags
             if nofeat:
                 ok = ok and 'gather:Clu' in sd.elem.tags
@@ -244,8 +295,23 @@ def run(ctx):
     md = repo.lookup_method(cls, 'make_depths')
     nand = [x for x in md.nodes(ast.Assign) if isinstance(x.targets[0], ast.Subscript) and unparse(x.targets[0].slice) == 'self.model.nan_idx' and unparse(x.value) == 'np.nan']
     ctx.check(bool(nand), 'C14.U2', md, nand[0] if nand else 'make_depths', 'depths of ids without spikes are NaN', 'depths of empty ids are not blanked')
-    br = [i for i in md.nodes(ast.If) if unparse(i.test).replace(' ', '') == 'self.model.sparse_featuresisNone']
-    ctx.check(bool(br), 'C14.U2', md, br[0].test if br else 'make_depths', 'the cluster depth is used for spikes exactly when no features exist', 'the fallback to cluster depths is not conditioned on the absence of features')
+    br = [i for i in md.nodes(ast.If) if Pat().any(['self.model.sparse_features is None', 'not self.model.sparse_features is None', 'self.model.sparse_features is not None',
+                                                   'not (self.model.sparse_features is None)', 'not (self.model.sparse_features is not None)'], i.test)]
+    anyf = [i for i in md.nodes(ast.If)]
+    if br:
+        is_none = Pat().any(['self.model.sparse_features is None', 'not (self.model.sparse_features is not None)', 'not self.model.sparse_features is not None'], br[0].test)
+        none_b, some_b = (br[0].body, br[0].orelse) if is_none else (br[0].orelse, br[0].body)
+        has_gd = lambda blk: any(isinstance(c, ast.Call) and q.method_name(c) == 'get_depths' for x in blk for c in ast.walk(x))
+        if has_gd(some_b) and not has_gd(none_b):
+            ctx.holds('C14.U2', md, 'the cluster depth is used for spikes exactly when no features exist', br[0].test)
+        elif has_gd(none_b) and not has_gd(some_b):
+            ctx.violated('C14.U2', md, br[0].test, 'the feature-weighted depths are requested when NO features exist and the cluster depths are used when they do (`%s`)' % unparse(br[0].test))
+        else:
+            ctx.undecided('C14.U2', md, 'branches of the depth fallback not recognised', br[0].test)
+    elif not anyf:
+        ctx.violated('C14.U2', md, 'make_depths', 'the fallback to cluster depths is not conditioned on the absence of features')
+    else:
+        ctx.undecided('C14.U2', md, 'the condition selecting between feature-weighted depths and cluster depths was not recognised')
     s1_rawind(ctx)
     m1_model_side(ctx)
 
